@@ -13,7 +13,7 @@ from .threads_common import run_clients
 
 NAME = "HT"
 PROPERTY = "C12"
-RUNS = {"quick": 48, "thorough": 2000}
+RUNS = {"quick": 32, "thorough": 2000}
 RUN_WALL_CAP = 150.0
 REQUIRED_PROBES = {"quick": ["same_shape_ensembles_in_two_clients", "interleaved_calls_compared"], "thorough": ["same_shape_ensembles_in_two_clients", "interleaved_calls_compared"]}
 COMPONENTS = {"real": ["toqito.state_opt.symmetric_extension_hierarchy / ppt_distinguishability called from 2 real threads (own lists each)", "cvxpy + SCS, picos + cvxopt (never pre-empted)"], "stub": ["thread scheduling: baton passing, pre-emption at every Python line of toqito code, decided by the choice source"]}
